@@ -24,7 +24,7 @@ EXPLANATION = (
 UNDECIDED = ("What the workspace looks like after a process death at each file-system step, torn writes and double faults need "
              "execution under fault injection or a model and are not decided by this analysis.")
 
-MODULES = ("signac.job", "signac.project", "signac._utility")
+MODULES = ("signac.job", "signac.project", "signac._utility", "signac.sync", "signac.import_export")
 
 # frozen table: function qual -> (headers it applies to or None for any, errno names that may pass silently or None, reason)
 # Keyed by function, not by the spelling of the handler: `except Exception` split into `except OSError` + `except Exception`
